@@ -50,7 +50,7 @@ CLASSES = {
     "ModeObj": {"bases": ["InjTarget"], "fields": {"MODE_NAME": "Str", "?setup": "Bool", "g_setup_cnt": "Int"}},
     "SetupHook": {"fields": {"owner": f"Ref:{COMP}", "g_cnt": "Int", "g_last": "Int"}},
     "Selector2": {"fields": {"modes": "Map[Str,Ref:ModeObj]"}},
-    "FbGetter": {"fields": {}}, "FbSetter": {"fields": {}}, "ResetDictObj": {"fields": {"d": "Map[Str,Ref:PyObj]"}},
+    "FbGetter": {"fields": {"g_owner": "Ref:PyObj"}}, "FbSetter": {"fields": {}}, "ResetDictObj": {"fields": {"d": "Map[Str,Ref:PyObj]"}},
     MR: {"fields": {"_components": f"Seq[(Str,Ref:{COMP})]", "_feedbacks": "Seq[(Ref:FbGetter,Ref:FbSetter)]", "_automodes": "Ref:Selector2",
                     "_reset_components": f"Seq[(Ref:ResetDictObj,Ref:InjTarget)]", "_exclude_from_injection": "Seq[Str]"}},
 }
@@ -65,8 +65,12 @@ CONTRACTS = {
     "rinit.hasattr": {"kind": "external", "params": {"obj": "py", "name": "Str"}, "returns": "Bool", "ensures": {"hasattr(self, m)": "result == robot_has(name)"}, "note": "hasattr(self, m): the attribute was already set by the user (reflection)"},
     "types.SimpleNamespace.__init__": {"kind": "external", "params": {}, "modifies": [], "ensures": {}},
     "magic_tunable.setup_tunables": {"kind": "external", "params": {"component": "py", "cname": "py", "prefix": "py"}, "modifies": [], "ensures": {}, "note": "setup_tunables: verified under C09 (contracts/tunable.py)"},
-    "magic_tunable.collect_feedbacks": {"kind": "external", "params": {"component": "py", "cname": "py", "prefix": "py"}, "returns": "Seq[(Ref:FbGetter,Ref:FbSetter)]", "modifies": [],
-                                        "ensures": {"a list": "len(result) >= 0"}, "note": "collect_feedbacks: key derivation verified under C11 (contracts/tunable.py)"},
+    "magic_tunable.collect_feedbacks": {"kind": "external", "params": {"component": "Ref:PyObj", "cname": "py", "prefix": "py"}, "returns": "Seq[(Ref:FbGetter,Ref:FbSetter)]", "modifies": [], "allocates": True,
+                                        "ensures": {"a list": "len(result) >= 0",
+                                                    "C11.K3/K4 (verified in contracts/tunable.py): getters are bound methods of the object, pairwise distinct; setters are new, pairwise distinct objects":
+                                                    "forall(a, Int, implies(0 <= a and a < len(result), result[a][0] is not None and result[a][0].g_owner is component and result[a][1] is not None and allocated(result[a][1]) and not old(allocated(result[a][1])))) and "
+                                                    "forall(a, Int, forall(b, Int, implies(0 <= a and a < b and b < len(result), not (result[a][0] is result[b][0]) and not (result[a][1] is result[b][1]))))"},
+                                        "note": "collect_feedbacks: key derivation and K3/K4 verified under C11 (contracts/tunable.py); restated here (separate class table)"},
     "magic_reset.collect_resets": {"kind": "external", "params": {"cls": "py"}, "returns": "Ref:ResetDictObj", "ensures": {"a dict; falsy iff empty": "result is not None and truthy(result) == (len(keys(result.d)) > 0)"},
                                    "note": "collect_resets: verified in contracts/reset.py (dict modelled as an object with a map field)"},
     "rinit.dict_update_map": {"kind": "external", "params": {"obj": "Ref:InjTarget", "m": "Map[Str,Ref:PyObj]"}, "modifies": ["obj.attrs"],
@@ -135,27 +139,37 @@ CONTRACTS = {
         "ensures": {"C10.V1 every will_reset_to attribute starts at its declared default and the component is registered for the per-iteration reset (only if it has markers)":
                     "(len(self._reset_components) == old(len(self._reset_components)) + 1 and self._reset_components[len(self._reset_components) - 1][1] is component and "
                     "forall(k, Str, implies(has(self._reset_components[len(self._reset_components) - 1][0].d, k), component.attrs[k] is self._reset_components[len(self._reset_components) - 1][0].d[k]))) "
-                    "or (len(self._reset_components) == old(len(self._reset_components)) and forall(k, Str, component.attrs[k] is old(component.attrs[k])))"},
+                    "or (len(self._reset_components) == old(len(self._reset_components)) and forall(k, Str, component.attrs[k] is old(component.attrs[k])))",
+                    "C10.V2 a registered entry holds an existing dict; entries registered before are kept":
+                    "implies(len(self._reset_components) == old(len(self._reset_components)) + 1, self._reset_components[len(self._reset_components) - 1][0] is not None) and "
+                    "forall(j, Int, implies(0 <= j and j < old(len(self._reset_components)), self._reset_components[j][0] is old(self._reset_components[j][0]) and self._reset_components[j][1] is old(self._reset_components[j][1])))"},
     },
     f"{MR}._create_components": {
         "receivers": [MR], "params": {}, "raises": True, "local_sorts": {"components": f"Seq[(Str,Ref:{COMP})]"},
-        "requires": {"selector present with existing mode objects": "self._automodes is not None and wf_map(self._automodes.modes) and forall(k, Str, implies(has(self._automodes.modes, k), self._automodes.modes[k] is not None))"},
+        "requires": {"selector present with existing mode objects": "self._automodes is not None and wf_map(self._automodes.modes) and forall(k, Str, implies(has(self._automodes.modes, k), self._automodes.modes[k] is not None))",
+                     "a new robot: no reset entries and no feedbacks yet (MagicRobot.__init__ C06.Z0); the robot object exists": "len(self._reset_components) == 0 and len(self._feedbacks) == 0 and allocated(self)"},
         "modifies": ["self._components", f"{MR}._feedbacks[*]", f"{MR}._reset_components[*]", "InjTarget.attrs[*]", "InjTarget.g_injected[*]", "SetupHook.g_cnt[*]", "SetupHook.g_last[*]", "g_seq", "ModeObj.g_setup_cnt[*]"],
         "loops": {
             0: {"inv": {
                 "components created so far are new, distinct, existing objects, not injected, setup not run": f"len(components) >= 0 and forall(a, Int, forall(b, Int, implies(0 <= a and a < len(components), "
-                    "components[a][1] is not None and allocated(components[a][1]) and not components[a][1].g_injected and implies(components[a][1].setup is not None, components[a][1].setup.owner is components[a][1] and components[a][1].setup.g_cnt == 0) "
+                    "components[a][1] is not None and allocated(components[a][1]) and not old(allocated(components[a][1])) and not components[a][1].g_injected and implies(components[a][1].setup is not None, components[a][1].setup.owner is components[a][1] and components[a][1].setup.g_cnt == 0) "
                     "and implies(a < b and b < len(components), not (components[a][1] is components[b][1])))))",
                 "C05.K1 one component per public, not-yet-set annotated name, in annotation order": "len(components) == count_names(HINTS(), __i) and __i <= len(keys(HINTS())) and "
                     "forall(j, Int, implies(0 <= j and j < __i and is_comp_name(keys(HINTS())[j]), count_names(HINTS(), j) < len(components) and components[count_names(HINTS(), j)][0] == keys(HINTS())[j]))",
                 "injectables stays a proper dict": "wf_map(injectables)",
             }},
             1: {"inv": {"components injected so far": "forall(j, Int, implies(0 <= j and j < __i, components[j][1].g_injected))",
+                        "C10.S5 (so far) reset entries: existing dicts, one per component that has markers, pairwise distinct components":
+                            "len(self._reset_components) >= 0 and forall(a, Int, implies(0 <= a and a < len(self._reset_components), self._reset_components[a][0] is not None and self._reset_components[a][1] is not None and "
+                            "exists(j, Int, 0 <= j and j < __i and self._reset_components[a][1] is components[j][1]))) and "
+                            "forall(a, Int, forall(b, Int, implies(0 <= a and a < b and b < len(self._reset_components), not (self._reset_components[a][1] is self._reset_components[b][1]))))",
                         "setup not run yet": "forall(a, Int, implies(0 <= a and a < len(components) and components[a][1].setup is not None, components[a][1].setup.g_cnt == 0))"}},
             2: {"inv": {"all components injected": "forall(j, Int, implies(0 <= j and j < len(components), components[j][1].g_injected))",
                         "modes injected so far": "forall(j, Int, implies(0 <= j and j < __i, values_at(self._automodes.modes, j).g_injected))",
                         "setup not run yet": "forall(a, Int, implies(0 <= a and a < len(components) and components[a][1].setup is not None, components[a][1].setup.g_cnt == 0))"}},
-            3: {"inv": {"everything is injected": "forall(j, Int, implies(0 <= j and j < len(components), components[j][1].g_injected)) and forall(j, Int, implies(0 <= j and j < len(keys(self._automodes.modes)), values_at(self._automodes.modes, j).g_injected))",
+            3: {"inv": {"C11.S6 (so far) feedback pairs: existing getters and setters, both pairwise distinct (each getter is a bound method of the robot or of a component handled so far)": "len(self._feedbacks) >= 0 and forall(a, Int, implies(0 <= a and a < len(self._feedbacks), self._feedbacks[a][0] is not None and self._feedbacks[a][1] is not None and allocated(self._feedbacks[a][1]) and (self._feedbacks[a][0].g_owner is self or exists(j, Int, 0 <= j and j < __i and self._feedbacks[a][0].g_owner is components[j][1])))) and forall(a, Int, forall(b, Int, implies(0 <= a and a < b and b < len(self._feedbacks), not (self._feedbacks[a][0] is self._feedbacks[b][0]) and not (self._feedbacks[a][1] is self._feedbacks[b][1]))))",
+                        "components did not exist when robotInit started (hence differ from the robot itself)": "forall(j, Int, implies(0 <= j and j < len(components), not old(allocated(components[j][1])))) and old(allocated(self))",
+                        "everything is injected": "forall(j, Int, implies(0 <= j and j < len(components), components[j][1].g_injected)) and forall(j, Int, implies(0 <= j and j < len(keys(self._automodes.modes)), values_at(self._automodes.modes, j).g_injected))",
                         "setup ran exactly once for the components handled so far, not yet for the others": "forall(a, Int, implies(0 <= a and a < len(components) and components[a][1].setup is not None, components[a][1].setup.g_cnt == (1 if a < __i else 0)))"}},
             4: {"inv": {"component setups done": "forall(a, Int, implies(0 <= a and a < len(components) and components[a][1].setup is not None, components[a][1].setup.g_cnt == 1))"}},
         },
@@ -163,6 +177,12 @@ CONTRACTS = {
             "C06.S3 every component's setup() ran exactly once": "forall(a, Int, implies(0 <= a and a < len(self._components) and self._components[a][1].setup is not None, self._components[a][1].setup.g_cnt == 1))",
             "C06.S4 the component list holds new, distinct, existing objects (the well-formedness the per-iteration contracts rely on)":
                 "forall(a, Int, forall(b, Int, implies(0 <= a and a < len(self._components), self._components[a][1] is not None and implies(a < b and b < len(self._components), not (self._components[a][1] is self._components[b][1])))))",
+            "C11.S6 (W4/W5) the feedback list holds existing getters and setters, both pairwise distinct":
+                "forall(a, Int, forall(b, Int, implies(0 <= a and a < len(self._feedbacks), self._feedbacks[a][0] is not None and self._feedbacks[a][1] is not None and "
+                "implies(a < b and b < len(self._feedbacks), not (self._feedbacks[a][0] is self._feedbacks[b][0]) and not (self._feedbacks[a][1] is self._feedbacks[b][1])))))",
+            "C10.S5 (W7) the reset entries hold existing dicts and pairwise distinct components (each component is reset once per iteration)":
+                "forall(a, Int, forall(b, Int, implies(0 <= a and a < len(self._reset_components), self._reset_components[a][0] is not None and self._reset_components[a][1] is not None and "
+                "implies(a < b and b < len(self._reset_components), not (self._reset_components[a][1] is self._reset_components[b][1])))))",
             "C05.K2 components are listed in declaration order: one per public, not-yet-set annotated name of the robot class, in the order typing.get_type_hints yields them (base classes first)":
                 "len(self._components) == count_names(HINTS(), len(keys(HINTS()))) and forall(j, Int, implies(0 <= j and j < len(keys(HINTS())) and is_comp_name(keys(HINTS())[j]), self._components[count_names(HINTS(), j)][0] == keys(HINTS())[j]))",
         },
